@@ -14,119 +14,172 @@ import BitstringModel.Proofs.C03Core
 
 namespace BM.C03
 open BM
+open Core
 
 /-! ### index / range validation: "an invalid position or range raises" -/
 
 /-- An index is accepted iff `-n ≤ i < n`; negative indices count from the end. -/
 theorem normIdx_some_iff (n : Nat) (i : Int) (j : Nat) :
     PyL.normIdx n i = some j ↔
-      ((0 ≤ i ∧ i < (n : Int) ∧ (j : Int) = i) ∨ (i < 0 ∧ -(n : Int) ≤ i ∧ (j : Int) = i + (n : Int))) := by
-  sorry
+      ((0 ≤ i ∧ i < (n : Int) ∧ (j : Int) = i) ∨ (i < 0 ∧ -(n : Int) ≤ i ∧ (j : Int) = i + (n : Int))) :=
+  normIdx_some_iff' n i j
 
 theorem normIdx_none_iff (n : Nat) (i : Int) :
-    PyL.normIdx n i = none ↔ (i < -(n : Int) ∨ (n : Int) ≤ i) := by
-  sorry
+    PyL.normIdx n i = none ↔ (i < -(n : Int) ∨ (n : Int) ≤ i) :=
+  normIdx_none_iff' n i
 
 /-- `_validate_slice` accepts exactly `0 ≤ start ≤ end ≤ len` (after defaulting and counting negatives from the end)
     and returns those two numbers. -/
 theorem validateSlice_ok_iff (n : Nat) (s e : Option Int) (a z : Nat) :
     validateSlice n s e = .ok (a, z) ↔
       (boundOr n 0 s = (a : Int) ∧ boundOr n (n : Int) e = (z : Int) ∧ a ≤ z ∧ z ≤ n) := by
-  sorry
+  unfold validateSlice
+  simp only
+  split
+  · simp only [Except.ok.injEq, Prod.mk.injEq]; omega
+  · simp only [reduceCtorEq, false_iff]; omega
 
 theorem validateSlice_err_iff (n : Nat) (s e : Option Int) :
     validateSlice n s e = .error .value ↔
       ¬ (0 ≤ boundOr n 0 s ∧ boundOr n 0 s ≤ boundOr n (n : Int) e ∧ boundOr n (n : Int) e ≤ (n : Int)) := by
-  sorry
+  unfold validateSlice
+  simp only
+  split
+  · rename_i h; simp [h]
+  · rename_i h; simp [h]
 
 /-! ### slice assignment and deletion (what `bitarray` does) have the Python list meaning -/
 
 theorem setSlice_step_zero {α} (l v : List α) (a b : Option Int) :
     PyL.setSlice l a b (some 0) v = .error .value := by
-  sorry
+  simp [PyL.setSlice]
 
 theorem delSlice_step_zero {α} (l : List α) (a b : Option Int) :
     PyL.delSlice l a b (some 0) = .error .value := by
-  sorry
+  simp [PyL.delSlice]
 
 /-- The positions a slice selects are inside the sequence … -/
 theorem slicePositions_lt (a b : Option Int) (st : Int) (hst : st ≠ 0) (n : Nat) :
-    ∀ i ∈ PyL.slicePositions a b st n, i < n := by
-  sorry
+    ∀ i ∈ PyL.slicePositions a b st n, i < n := 
+  slicePositions_lt' a b st hst n
 
 /-- … and pairwise distinct. -/
 theorem slicePositions_nodup (a b : Option Int) (st : Int) (hst : st ≠ 0) (n : Nat) :
-    (PyL.slicePositions a b st n).Nodup := by
-  sorry
+    (PyL.slicePositions a b st n).Nodup := 
+  slicePositions_nodup' a b st hst n
 
 /-- `l[a:b] = v` with in-range non-negative bounds is the splice `l[:a] + v + l[b:]`. -/
 theorem setSlice_contiguous {α} (l v : List α) (a b : Nat) (hab : a ≤ b) (hb : b ≤ l.length) :
     PyL.setSlice l (some (a : Int)) (some (b : Int)) none v = .ok (l.take a ++ v ++ l.drop b) := by
-  sorry
+  rw [setSlice_nonneg l v a b hab hb]; rfl
 
 /-- A step-1 assignment replaces as many elements as the slice selects by the whole value (length may change). -/
 theorem setSlice_step1_length {α} (l v r : List α) (a b : Option Int) (h : PyL.setSlice l a b none v = .ok r) :
     r.length + (PyL.slicePositions a b 1 l.length).length = l.length + v.length := by
-  sorry
+  rw [slicePositions_length, C01.rangeLen_one]
+  unfold PyL.setSlice at h
+  simp only [Option.getD_none, if_true, show ¬ ((1 : Int) = 0) by omega, if_false] at h
+  injection h with h
+  subst h
+  have h1 := C01.sliceIndices_pos a b 1 (by omega) l.length
+  generalize (Py.sliceIndices a b 1 l.length).1 = s at *
+  generalize (Py.sliceIndices a b 1 l.length).2.1 = e at *
+  have h2 : s ≤ l.length ∨ True := Or.inr trivial
+  simp only [splice, List.length_append, List.length_take, List.length_drop]
+  omega
 
 /-- An extended-slice assignment succeeds iff the value has exactly as many elements as the slice selects
     (otherwise ValueError, nothing assigned) … -/
 theorem setSlice_ext_ok_iff {α} (l v : List α) (a b : Option Int) (st : Int) (h0 : st ≠ 0) (h1 : st ≠ 1) :
     (∃ r, PyL.setSlice l a b (some st) v = .ok r) ↔ v.length = (PyL.slicePositions a b st l.length).length := by
-  sorry
+  rw [setSlice_ext_eq l v a b st h0 h1]
+  split
+  · rename_i h
+    constructor
+    · rintro ⟨r, hr⟩; cases hr
+    · intro h'; exact absurd h'.symm h
+  · rename_i h
+    constructor
+    · intro _; exact (not_not.mp h).symm
+    · intro _; exact ⟨_, rfl⟩
 
 theorem setSlice_ext_err {α} (l v : List α) (a b : Option Int) (st : Int) (h0 : st ≠ 0) (h1 : st ≠ 1)
     (h : v.length ≠ (PyL.slicePositions a b st l.length).length) :
     PyL.setSlice l a b (some st) v = .error .value := by
-  sorry
+  rw [setSlice_ext_eq l v a b st h0 h1, if_pos (Ne.symm h)]
 
 /-- … keeps the length … -/
 theorem setSlice_ext_length {α} (l v r : List α) (a b : Option Int) (st : Int) (h0 : st ≠ 0) (h1 : st ≠ 1)
     (h : PyL.setSlice l a b (some st) v = .ok r) : r.length = l.length := by
-  sorry
+  rw [(setSlice_ext_ok h0 h1 h).2, assignAt_length]
 
 /-- … puts `v[k]` at the k-th selected position … -/
 theorem setSlice_ext_getElem {α} (l v r : List α) (a b : Option Int) (st : Int) (h0 : st ≠ 0) (h1 : st ≠ 1)
     (h : PyL.setSlice l a b (some st) v = .ok r) (k : Nat) (hk : k < (PyL.slicePositions a b st l.length).length) :
     r[(PyL.slicePositions a b st l.length)[k]]? = v[k]? := by
-  sorry
+  obtain ⟨hl, rfl⟩ := setSlice_ext_ok h0 h1 h
+  exact assignAt_getElem l _ v (slicePositions_nodup' a b st h0 l.length) hl
+    (slicePositions_lt' a b st h0 l.length) k hk
 
 /-- … and leaves every other position alone. -/
 theorem setSlice_ext_frame {α} (l v r : List α) (a b : Option Int) (st : Int) (h0 : st ≠ 0) (h1 : st ≠ 1)
     (h : PyL.setSlice l a b (some st) v = .ok r) (i : Nat) (hi : i ∉ PyL.slicePositions a b st l.length) :
     r[i]? = l[i]? := by
-  sorry
+  obtain ⟨_, rfl⟩ := setSlice_ext_ok h0 h1 h
+  exact assignAt_not_mem l _ v i hi
 
 /-- `del l[a:b]` with in-range non-negative bounds is `l[:a] + l[b:]`. -/
 theorem delSlice_contiguous {α} (l : List α) (a b : Nat) (hab : a ≤ b) (hb : b ≤ l.length) :
-    PyL.delSlice l (some (a : Int)) (some (b : Int)) none = .ok (l.take a ++ l.drop b) := by
-  sorry
+    PyL.delSlice l (some (a : Int)) (some (b : Int)) none = .ok (l.take a ++ l.drop b) :=
+  delSlice_nonneg l a b hab hb
 
 /-- Deleting a slice removes exactly as many elements as the slice selects … -/
 theorem delSlice_length {α} (l r : List α) (a b c : Option Int) (h : PyL.delSlice l a b c = .ok r) :
     r.length + (PyL.slicePositions a b (c.getD 1) l.length).length = l.length := by
-  sorry
+  obtain ⟨hc, rfl⟩ := delSlice_ok h
+  exact removeAt_length l _ (slicePositions_nodup' a b _ hc l.length) (slicePositions_lt' a b _ hc l.length)
 
 /-- … and what remains is the other elements in their order. -/
 theorem delSlice_sublist {α} (l r : List α) (a b c : Option Int) (h : PyL.delSlice l a b c = .ok r) :
     r.Sublist l := by
-  sorry
+  obtain ⟨_, rfl⟩ := delSlice_ok h
+  exact removeAt_sublist l _
 
 /-- `del s[:]` empties (this is `clear`). -/
 theorem delSlice_all {α} (l : List α) : PyL.delSlice l none none none = .ok [] := by
-  sorry
+  have h : (PyL.removeAt l (PyL.slicePositions none none 1 l.length)).length +
+      (PyL.slicePositions none none 1 l.length).length = l.length := delSlice_length l _ none none none rfl
+  have h2 : PyL.delSlice l none none none = .ok (PyL.removeAt l (PyL.slicePositions none none 1 l.length)) := rfl
+  rw [h2]
+  rw [slicePositions_length, C01.sliceIndices_none_none_pos 1 (by omega), C01.rangeLen_one] at h
+  simp only at h
+  congr 1
+  apply List.eq_nil_of_length_eq_zero
+  omega
 
 theorem setIndex_err_iff {α} (l : List α) (i : Int) (v : α) :
     PyL.setIndex l i v = .error .index ↔ (i < -(l.length : Int) ∨ (l.length : Int) ≤ i) := by
-  sorry
+  rw [← normIdx_none_iff]
+  unfold PyL.setIndex
+  split <;> simp_all
 
 theorem delIndex_err_iff {α} (l : List α) (i : Int) :
     PyL.delIndex l i = .error .index ↔ (i < -(l.length : Int) ∨ (l.length : Int) ≤ i) := by
-  sorry
+  rw [← normIdx_none_iff]
+  unfold PyL.delIndex
+  split <;> simp_all
 
 theorem delIndex_length {α} (l r : List α) (i : Int) (h : PyL.delIndex l i = .ok r) :
     r.length + 1 = l.length := by
-  sorry
+  unfold PyL.delIndex at h
+  split at h
+  · cases h
+  · rename_i j hj
+    injection h with h
+    subst h
+    have := (normIdx_some_iff l.length i j).mp hj
+    rw [List.length_eraseIdx]
+    split <;> omega
 
 /-! ### insert -/
 
@@ -135,7 +188,29 @@ theorem delIndex_length {α} (l r : List α) (i : Int) (h : PyL.delIndex l i = .
     position is looked at (known deviation `emptyOperandBadPos`). -/
 theorem insert_eq_spec_partial (l : Bits) (b : Operand) (pos : Int) (h : emptyOperandBadPos l b pos = false) :
     Alg.insert l b pos = Spec.insert l (b.val l) pos := by
-  sorry
+  unfold Alg.insert Spec.insert
+  simp only
+  by_cases hb : (b.val l).length = 0
+  · rw [if_pos hb]
+    have hnil : b.val l = [] := List.eq_nil_of_length_eq_zero hb
+    simp only [emptyOperandBadPos, hb, beq_self_eq_true, Bool.true_and] at h
+    cases hp : Spec.insPos l.length pos with
+    | none => rw [hp] at h; simp at h
+    | some p => simp [hnil]
+  · rw [if_neg hb]
+    cases hp : Spec.insPos l.length pos with
+    | none =>
+      have := (insPos_none_iff _ _).mp hp
+      simp only
+      rw [if_pos (by split <;> omega)]
+    | some p =>
+      have := (insPos_some_iff _ _ _).mp hp
+      simp only
+      rw [if_neg (by split <;> omega)]
+      have e : (if pos < 0 then pos + (l.length : Int) else pos).toNat = p := by split <;> omega
+      rw [e]
+      unfold Alg._insert
+      exact setSlice_contiguous l _ p p (Nat.le_refl _) (by omega)
 
 theorem insert_empty_bad_pos_witness :
     Alg.insert [true, false] (.lit []) 5 = .ok [true, false] ∧ Spec.insert [true, false] [] 5 = .error .value := by
@@ -143,27 +218,47 @@ theorem insert_empty_bad_pos_witness :
 
 theorem insert_ok_iff (l b : Bits) (pos : Int) :
     (∃ r, Spec.insert l b pos = .ok r) ↔ (-(l.length : Int) ≤ pos ∧ pos ≤ (l.length : Int)) := by
-  sorry
+  unfold Spec.insert
+  cases hp : Spec.insPos l.length pos with
+  | none =>
+    have := (insPos_none_iff _ _).mp hp
+    simp only [reduceCtorEq, exists_false, false_iff]
+    omega
+  | some p =>
+    have := (insPos_some_iff _ _ _).mp hp
+    simp only [Except.ok.injEq, exists_eq', true_iff]
+    omega
 
 theorem insert_err (l b : Bits) (pos : Int) (h : pos < -(l.length : Int) ∨ (l.length : Int) < pos) :
     Spec.insert l b pos = .error .value := by
-  sorry
+  unfold Spec.insert
+  rw [(insPos_none_iff _ _).mpr h]
 
 /-- Frame: the bits before the position stay, the value sits at the position, the bits from the position on follow. -/
 theorem insert_shape (l b r : Bits) (pos : Int) (h : Spec.insert l b pos = .ok r) :
     ∃ p, Spec.insPos l.length pos = some p ∧ p ≤ l.length ∧
       r.take p = l.take p ∧ slc r p (p + b.length) = b ∧ r.drop (p + b.length) = l.drop p := by
-  sorry
+  obtain ⟨p, hp, hle, rfl⟩ := insert_ok h
+  refine ⟨p, hp, hle, ?_, ?_, ?_⟩
+  · rw [List.append_assoc, List.take_left' (by simp; omega)]
+  · unfold slc
+    rw [List.append_assoc, List.drop_left' (by simp; omega), Nat.add_sub_cancel_left, List.take_left' rfl]
+  · rw [List.drop_left' (by simp; omega)]
 
 theorem insert_length (l b r : Bits) (pos : Int) (h : Spec.insert l b pos = .ok r) :
     r.length = l.length + b.length := by
-  sorry
+  obtain ⟨p, hp, hle, rfl⟩ := insert_ok h
+  simp; omega
 
 theorem insert_at_end (l b : Bits) : Spec.insert l b (l.length : Int) = .ok (Spec.append l b) := by
-  sorry
+  unfold Spec.insert
+  rw [(insPos_some_iff _ _ l.length).mpr (by omega)]
+  simp [Spec.append]
 
 theorem insert_at_start (l b : Bits) : Spec.insert l b 0 = .ok (Spec.prepend l b) := by
-  sorry
+  unfold Spec.insert
+  rw [(insPos_some_iff _ _ 0).mpr (by omega)]
+  simp [Spec.prepend]
 
 /-! ### overwrite -/
 
@@ -173,7 +268,51 @@ theorem insert_at_start (l b : Bits) : Spec.insert l b 0 = .ok (Spec.prepend l b
 theorem overwrite_eq_spec_partial (l : Bits) (b : Operand) (pos : Int)
     (h1 : emptyOperandBadPos l b pos = false) (h2 : overwriteSelfNonzero l b pos = false) :
     Alg.overwrite l b pos = Spec.overwrite l (b.val l) pos := by
-  sorry
+  unfold Alg.overwrite Spec.overwrite
+  simp only
+  by_cases hb : (b.val l).length = 0
+  · rw [if_pos hb]
+    have hnil : b.val l = [] := List.eq_nil_of_length_eq_zero hb
+    simp only [emptyOperandBadPos, hb, beq_self_eq_true, Bool.true_and] at h1
+    cases hp : Spec.insPos l.length pos with
+    | none => rw [hp] at h1; simp at h1
+    | some p => simp [hnil]
+  · rw [if_neg hb]
+    cases hp : Spec.insPos l.length pos with
+    | none =>
+      have := (insPos_none_iff _ _).mp hp
+      simp only
+      rw [if_pos (by split <;> omega)]
+    | some p =>
+      have hpp := (insPos_some_iff _ _ _).mp hp
+      simp only
+      rw [if_neg (by split <;> omega)]
+      have e : (if pos < 0 then pos + (l.length : Int) else pos).toNat = p := by split <;> omega
+      rw [e]
+      unfold Alg._overwrite
+      cases b with
+      | self =>
+        simp only [Operand.isSelf, if_true, Operand.val] at hb ⊢
+        simp only [overwriteSelfNonzero, Operand.isSelf, hp, Bool.true_and, Bool.and_eq_false_iff,
+          bne_eq_false_iff_eq] at h2
+        have hp0 : p = 0 := by
+          rcases h2 with h2 | h2
+          · exact absurd h2 hb
+          · exact h2
+        subst hp0
+        simp
+      | lit bs =>
+        simp only [Operand.isSelf, Operand.val, Bool.false_eq_true, if_false]
+        have e2 : (p : Int) + (bs.length : Int) = ((p + bs.length : Nat) : Int) := by omega
+        rw [e2, setSlice_clamped]
+        congr 1
+        have hle : p ≤ l.length := by omega
+        unfold splice
+        rw [Nat.min_eq_left hle]
+        by_cases hc : p + bs.length ≤ l.length
+        · rw [Nat.min_eq_left hc, Nat.max_eq_right (by omega)]
+        · rw [Nat.min_eq_right (by omega), Nat.max_eq_right hle]
+          rw [List.drop_eq_nil_of_le (Nat.le_refl _), List.drop_eq_nil_of_le (by omega)]
 
 theorem overwrite_self_witness :
     (∃ err, Alg.overwrite [true, true, false, true, false, false] .self 2 = .error err) ∧
@@ -184,70 +323,183 @@ theorem overwrite_self_witness :
 theorem overwrite_shape (l b r : Bits) (pos : Int) (h : Spec.overwrite l b pos = .ok r) :
     ∃ p, Spec.insPos l.length pos = some p ∧ p ≤ l.length ∧
       r.take p = l.take p ∧ slc r p (p + b.length) = b ∧ r.drop (p + b.length) = l.drop (p + b.length) := by
-  sorry
+  obtain ⟨p, hp, hle, rfl⟩ := overwrite_ok h
+  refine ⟨p, hp, hle, ?_, ?_, ?_⟩
+  · rw [List.append_assoc, List.take_left' (by simp; omega)]
+  · unfold slc
+    rw [List.append_assoc, List.drop_left' (by simp; omega), Nat.add_sub_cancel_left, List.take_left' rfl]
+  · rw [List.drop_left' (by simp; omega)]
 
 /-- Length: unchanged when the value fits, extended to `p + |bs|` otherwise. -/
 theorem overwrite_length (l b r : Bits) (pos : Int) (h : Spec.overwrite l b pos = .ok r) :
     ∃ p, Spec.insPos l.length pos = some p ∧ r.length = max l.length (p + b.length) := by
-  sorry
+  obtain ⟨p, hp, hle, rfl⟩ := overwrite_ok h
+  refine ⟨p, hp, ?_⟩
+  simp; omega
 
 /-- Frame: a bit outside `[p, p+|bs|)` is not altered. -/
 theorem overwrite_frame (l b r : Bits) (pos : Int) (p : Nat) (h : Spec.overwrite l b pos = .ok r)
     (hp : Spec.insPos l.length pos = some p) (i : Nat) (hi : i < p ∨ p + b.length ≤ i) : r[i]? = l[i]? := by
-  sorry
+  obtain ⟨p', hp', hle, rfl⟩ := overwrite_ok h
+  rw [hp] at hp'
+  injection hp' with hp'
+  subst hp'
+  rcases hi with hi | hi
+  · rw [List.append_assoc, List.getElem?_append_left (by simp; omega), List.getElem?_take, if_pos hi]
+  · rw [List.getElem?_append_right (by simp; omega), List.getElem?_drop]
+    congr 1
+    simp; omega
 
 /-! ### item assignment and deletion -/
 
 theorem setItemInt_eq_spec (l : Bits) (i v : Int) : Alg.setItemInt l i v = Spec.setItemInt l i v := by
-  sorry
+  unfold Alg.setItemInt Spec.setItemInt
+  by_cases h0 : v = 0
+  · subst h0; simp
+  · rw [if_neg h0]
+    by_cases h1 : v = 1 ∨ v = -1
+    · rw [if_pos h1, if_pos (Or.inr h1)]; simp [h0]
+    · rw [if_neg h1, if_neg (by omega)]
 
 /-- `s[i] = bitstring`: the explicit bounds check + `self._bitstore[pk:pk+1] = value` is "replace bit i by the value". -/
 theorem setItemBits_eq_spec (l : Bits) (i : Int) (b : Operand) :
     Alg.setItemBits l i b = Spec.setItemBits l i (b.val l) := by
-  sorry
+  unfold Alg.setItemBits Spec.setItemBits
+  simp only
+  cases hp : PyL.normIdx l.length i with
+  | none =>
+    have := (normIdx_none_iff _ _).mp hp
+    rw [if_pos (by split <;> omega)]
+  | some j =>
+    have := (normIdx_some_iff _ _ _).mp hp
+    rw [if_neg (by split <;> omega)]
+    have e : (if i < 0 then i + (l.length : Int) else i) = (j : Int) := by split <;> omega
+    rw [e]
+    have e2 : (j : Int) + 1 = ((j + 1 : Nat) : Int) := by omega
+    rw [e2]
+    exact setSlice_contiguous l _ j (j + 1) (by omega) (by omega)
 
 theorem setItemInt_frame (l r : Bits) (i v : Int) (h : Spec.setItemInt l i v = .ok r) :
     r.length = l.length ∧ ∀ j : Nat, PyL.normIdx l.length i ≠ some j → r[j]? = l[j]? := by
-  sorry
+  obtain ⟨j, hj, rfl⟩ := setItemInt_ok h
+  refine ⟨by simp, ?_⟩
+  intro k hk
+  rw [List.getElem?_set_ne]
+  intro e; subst e; exact hk hj
 
 theorem setItemInt_value (l r : Bits) (i v : Int) (j : Nat) (h : Spec.setItemInt l i v = .ok r)
     (hj : PyL.normIdx l.length i = some j) : r[j]? = some (decide (v ≠ 0)) := by
-  sorry
+  obtain ⟨j', hj', rfl⟩ := setItemInt_ok h
+  rw [hj] at hj'
+  injection hj' with hj'
+  subst hj'
+  have := (normIdx_some_iff _ _ _).mp hj
+  rw [List.getElem?_set_self (by omega)]
 
 theorem setItemInt_err_iff (l : Bits) (i v : Int) :
     (∃ e, Spec.setItemInt l i v = .error e) ↔
       ((v ≠ 0 ∧ v ≠ 1 ∧ v ≠ -1) ∨ i < -(l.length : Int) ∨ (l.length : Int) ≤ i) := by
-  sorry
+  unfold Spec.setItemInt
+  by_cases hv : v = 0 ∨ v = 1 ∨ v = -1
+  · rw [if_pos hv]
+    unfold PyL.setIndex
+    cases hp : PyL.normIdx l.length i with
+    | none =>
+      have := (normIdx_none_iff _ _).mp hp
+      simp only [Except.error.injEq, exists_eq', true_iff]
+      omega
+    | some j =>
+      have := (normIdx_some_iff _ _ _).mp hp
+      simp only [reduceCtorEq, exists_false, false_iff]
+      omega
+  · rw [if_neg hv]
+    simp only [Except.error.injEq, exists_eq', true_iff]
+    omega
 
 theorem setItemBits_shape (l b r : Bits) (i : Int) (h : Spec.setItemBits l i b = .ok r) :
     ∃ j, PyL.normIdx l.length i = some j ∧ r.take j = l.take j ∧ slc r j (j + b.length) = b ∧
       r.drop (j + b.length) = l.drop (j + 1) ∧ r.length + 1 = l.length + b.length := by
-  sorry
+  unfold Spec.setItemBits at h
+  cases hp : PyL.normIdx l.length i with
+  | none => rw [hp] at h; cases h
+  | some j =>
+    rw [hp] at h
+    injection h with h
+    subst h
+    have := (normIdx_some_iff _ _ _).mp hp
+    have hj : j < l.length := by omega
+    refine ⟨j, rfl, ?_, ?_, ?_, ?_⟩
+    · rw [List.append_assoc, List.take_left' (by simp; omega)]
+    · unfold slc
+      rw [List.append_assoc, List.drop_left' (by simp; omega), Nat.add_sub_cancel_left, List.take_left' rfl]
+    · rw [List.drop_left' (by simp; omega)]
+    · simp; omega
 
 theorem delItem_shape (l r : Bits) (i : Int) (h : Spec.delItem l i = .ok r) :
     ∃ j, PyL.normIdx l.length i = some j ∧ r = l.take j ++ l.drop (j + 1) := by
-  sorry
+  unfold Spec.delItem PyL.delIndex at h
+  split at h
+  · cases h
+  · rename_i j hj
+    injection h with h
+    exact ⟨j, hj, by rw [← h, List.eraseIdx_eq_take_drop_succ]⟩
 
 /-! ### integer values in slice assignment -/
 
 /-- `cls(uint=v, length=k)` / `cls(int=v, length=k)` accept exactly the values the specification's `intBits` accepts. -/
-theorem intValue_eq_intBits (k : Nat) (v : Int) : Alg.intValue k v = Spec.intBits k v := by
-  sorry
+theorem intValue_eq_intBits (k : Nat) (v : Int) : Alg.intValue k v = Spec.intBits k v :=
+  intValue_eq_intBits' k v
 
 theorem intBits_ok_iff (k : Nat) (v : Int) :
     (∃ b, Spec.intBits k v = .ok b) ↔
       (0 < k ∧ ((0 ≤ v ∧ v < (2 : Int) ^ k) ∨ (v < 0 ∧ -((2 : Int) ^ (k - 1)) ≤ v))) := by
-  sorry
+  unfold Spec.intBits
+  by_cases hk : k = 0
+  · simp [hk]
+  · rw [if_neg hk]
+    have hk' : 0 < k := by omega
+    have hpos : (0 : Int) < (2 : Int) ^ (k - 1) := by positivity
+    by_cases hv : 0 ≤ v
+    · rw [if_pos hv]
+      by_cases h2 : v < (2 : Int) ^ k
+      · rw [if_pos h2]; simp only [Except.ok.injEq, exists_eq', true_iff]; exact ⟨hk', Or.inl ⟨hv, h2⟩⟩
+      · rw [if_neg h2]; simp only [reduceCtorEq, exists_false, false_iff]; omega
+    · rw [if_neg hv]
+      by_cases h2 : -((2 : Int) ^ (k - 1)) ≤ v
+      · rw [if_pos h2]; simp only [Except.ok.injEq, exists_eq', true_iff]; exact ⟨hk', Or.inr ⟨by omega, h2⟩⟩
+      · rw [if_neg h2]; simp only [reduceCtorEq, exists_false, false_iff]; omega
 
 /-- A non-negative integer is written as the `k`-bit unsigned number … -/
 theorem intBits_uint (k : Nat) (v : Int) (b : Bits) (hv : 0 ≤ v) (h : Spec.intBits k v = .ok b) :
     b.length = k ∧ (bitsToNat b : Int) = v := by
-  sorry
+  unfold Spec.intBits at h
+  split at h
+  · cases h
+  · split at h
+    · rename_i h2
+      injection h with h
+      subst h
+      refine ⟨natToBits_length _ _, ?_⟩
+      rw [bitsToNat_natToBits]
+      · omega
+      · have : ((v.toNat : Nat) : Int) < ((2 ^ k : Nat) : Int) := by rw [← two_pow_cast]; omega
+        exact_mod_cast this
+    · cases h
 
 /-- … a negative one as the `k`-bit two's-complement number. -/
 theorem intBits_int (k : Nat) (v : Int) (b : Bits) (hv : v < 0) (h : Spec.intBits k v = .ok b) :
     b.length = k ∧ bitsToInt b = v := by
-  sorry
+  unfold Spec.intBits at h
+  split at h
+  · cases h
+  · rename_i hk
+    rw [if_neg (by omega)] at h
+    split at h
+    · rename_i h2
+      injection h with h
+      subst h
+      exact intToBits_neg k v hk hv h2
+    · cases h
 
 /-- `s[a:b:c] = int`: `_setitem_slice` agrees with the specification except where the pinned tree takes the width of
     a step −1 slice from the step +1 slice (`setSliceIntNegStep`) and where a `|step| ≥ 2` assignment of 0/1 goes
@@ -255,7 +507,41 @@ theorem intBits_int (k : Nat) (v : Int) (b : Bits) (hv : v < 0) (h : Spec.intBit
 theorem setSliceInt_eq_spec_partial (l : Bits) (a b c : Option Int) (v : Int)
     (h1 : setSliceIntNegStep l a b c = false) (h2 : setSliceIntStepRegion l a b c = false) :
     Alg.setSliceInt l a b c v = Spec.setSliceInt l a b c v := by
-  sorry
+  obtain ⟨s, hs, hslen⟩ := getSlice_none_ok l a b
+  by_cases hc : c = none ∨ c = some 1 ∨ c = some (-1)
+  · rw [alg_setSliceInt_unit l a b c v hc,
+      spec_setSliceInt_unit l a b c v (by rcases hc with h | h | h <;> simp [h]), hs]
+    simp only
+    have hlen : s.length = (PyL.slicePositions a b (c.getD 1) l.length).length := by
+      rcases hc with h | h | h
+      · rw [h]; exact hslen
+      · rw [h]; exact hslen
+      · rw [h]
+        simp only [setSliceIntNegStep, h, hs, beq_self_eq_true, Bool.true_and, bne_eq_false_iff_eq] at h1
+        simpa using h1
+    rw [hlen]
+  · cases c with
+    | none => exact absurd (Or.inl rfl) hc
+    | some st =>
+      have hst1 : st ≠ 1 := fun h => hc (Or.inr (Or.inl (by rw [h])))
+      have hstm : st ≠ -1 := fun h => hc (Or.inr (Or.inr (by rw [h])))
+      unfold Alg.setSliceInt
+      rw [if_pos ⟨by simp, by simpa using hstm, by simpa using hst1⟩]
+      by_cases hst0 : st = 0
+      · subst hst0
+        simp [Spec.setSliceInt]
+      · rw [spec_setSliceInt_ext l a b st v hst0 hst1 hstm]
+        by_cases hv : v = 0 ∨ v = 1
+        · rw [if_pos hv, if_pos hv]
+          simp only [Option.getD_some, if_neg hst0, Alg.setRange, PyL.setSliceScalar]
+          congr 2
+          have e0 : (st != 0) = true := by simpa using hst0
+          have e1 : (st != 1) = true := by simpa using hst1
+          have em : (st != -1) = true := by simpa using hstm
+          simp only [setSliceIntStepRegion, setRangeAsSlice, e0, e1, em, Bool.true_and,
+            Bool.not_eq_false', Bool.and_eq_true, beq_iff_eq] at h2
+          rw [h2.2, rangeList_filterMap_normIdx a b st hst0]
+        · rw [if_neg hv, if_neg hv]
 
 theorem setSliceInt_negstep_witness :
     Alg.setSliceInt (List.replicate 6 false) (some 4) (some 0) (some (-1)) 1 = .error .value ∧
@@ -272,12 +558,71 @@ theorem setSliceInt_step_witness :
 /-- Length of `s[a:b:c] = int`: never changes (the value is made exactly as wide as the slice). -/
 theorem setSliceInt_length (l r : Bits) (a b c : Option Int) (v : Int) (h : Spec.setSliceInt l a b c v = .ok r) :
     r.length = l.length := by
-  sorry
+  by_cases hc : c.getD 1 = 1 ∨ c.getD 1 = -1
+  · rw [spec_setSliceInt_unit l a b c v hc] at h
+    split at h
+    · cases h
+    · rename_i bits hbits
+      have hbl := intBits_length hbits
+      rcases hc with hc | hc
+      · have e : PyL.setSlice l a b c bits = PyL.setSlice l a b none bits := by
+          unfold PyL.setSlice; simp only [hc, Option.getD_none]
+        rw [e] at h
+        have := setSlice_step1_length l bits r a b h
+        rw [hc] at hbl
+        omega
+      · cases c with
+        | none => simp at hc
+        | some st =>
+          simp only [Option.getD_some] at hc
+          subst hc
+          exact setSlice_ext_length l bits r a b (-1) (by omega) (by omega) h
+  · cases c with
+    | none => simp at hc
+    | some st =>
+      simp only [Option.getD_some] at hc
+      by_cases h0 : st = 0
+      · subst h0; simp [Spec.setSliceInt] at h
+      · rw [spec_setSliceInt_ext l a b st v h0 (by omega) (by omega)] at h
+        split at h
+        · injection h with h
+          subst h
+          exact foldl_set_length _ _ _
+        · cases h
 
 /-- Frame of `s[a:b:c] = int`: a position the slice does not select keeps its bit. -/
 theorem setSliceInt_frame (l r : Bits) (a b c : Option Int) (v : Int) (h : Spec.setSliceInt l a b c v = .ok r)
     (i : Nat) (hi : i ∉ PyL.slicePositions a b (c.getD 1) l.length) : r[i]? = l[i]? := by
-  sorry
+  by_cases hc : c.getD 1 = 1 ∨ c.getD 1 = -1
+  · rw [spec_setSliceInt_unit l a b c v hc] at h
+    split at h
+    · cases h
+    · rename_i bits hbits
+      have hbl := intBits_length hbits
+      rcases hc with hc | hc
+      · have e : PyL.setSlice l a b c bits = PyL.setSlice l a b none bits := by
+          unfold PyL.setSlice; simp only [hc, Option.getD_none]
+        rw [e] at h
+        rw [hc] at hbl hi
+        exact setSlice_step1_frame l bits r a b h hbl i hi
+      · cases c with
+        | none => simp at hc
+        | some st =>
+          simp only [Option.getD_some] at hc hi
+          subst hc
+          exact setSlice_ext_frame l bits r a b (-1) (by omega) (by omega) h i hi
+  · cases c with
+    | none => simp at hc
+    | some st =>
+      simp only [Option.getD_some] at hc hi
+      by_cases h0 : st = 0
+      · subst h0; simp [Spec.setSliceInt] at h
+      · rw [spec_setSliceInt_ext l a b st v h0 (by omega) (by omega)] at h
+        split at h
+        · injection h with h
+          subst h
+          exact foldl_set_not_mem _ _ _ i hi
+        · cases h
 
 /-! ### non-vacuity -/
 example : emptyOperandBadPos [true, false] (.lit [true]) 7 = false := by decide
